@@ -3,6 +3,8 @@ package harness
 import (
 	"slices"
 
+	"github.com/alowayed/go-univers/zz_sim/simrt"
+
 	"github.com/alowayed/go-univers/pkg/univers"
 )
 
@@ -28,7 +30,12 @@ func adapt[V univers.Version[V], VR univers.VersionRange[V]](e univers.Ecosystem
 }
 
 func (a *ecoAdapter[V, VR]) Name() string { return a.e.Name() }
+
+// Every adapter method restarts the per-call step budget of the current task:
+// the no-progress budget is meant for a single library call, however many of
+// them one harness operation (a large sort, a pool observation) strings together.
 func (a *ecoAdapter[V, VR]) NewVersion(s string) (any, error) {
+	simrt.ResetOpSteps()
 	v, err := a.e.NewVersion(s)
 	if err != nil {
 		return nil, err
@@ -36,14 +43,21 @@ func (a *ecoAdapter[V, VR]) NewVersion(s string) (any, error) {
 	return v, nil
 }
 func (a *ecoAdapter[V, VR]) NewRange(s string) (any, error) {
+	simrt.ResetOpSteps()
 	r, err := a.e.NewVersionRange(s)
 	if err != nil {
 		return nil, err
 	}
 	return r, nil
 }
-func (a *ecoAdapter[V, VR]) Compare(x, y any) int   { return x.(V).Compare(y.(V)) }
-func (a *ecoAdapter[V, VR]) Contains(r, v any) bool { return r.(VR).Contains(v.(V)) }
+func (a *ecoAdapter[V, VR]) Compare(x, y any) int {
+	simrt.ResetOpSteps()
+	return x.(V).Compare(y.(V))
+}
+func (a *ecoAdapter[V, VR]) Contains(r, v any) bool {
+	simrt.ResetOpSteps()
+	return r.(VR).Contains(v.(V))
+}
 func (a *ecoAdapter[V, VR]) VString(v any) string   { return v.(V).String() }
 func (a *ecoAdapter[V, VR]) RString(r any) string   { return r.(VR).String() }
 func (a *ecoAdapter[V, VR]) SortCopy(vs []any) []any {
@@ -51,7 +65,10 @@ func (a *ecoAdapter[V, VR]) SortCopy(vs []any) []any {
 	for i, v := range vs {
 		tv[i] = v.(V)
 	}
-	slices.SortFunc(tv, func(x, y V) int { return x.Compare(y) })
+	slices.SortFunc(tv, func(x, y V) int {
+		simrt.ResetOpSteps()
+		return x.Compare(y)
+	})
 	out := make([]any, len(tv))
 	for i, v := range tv {
 		out[i] = v
